@@ -1,7 +1,39 @@
 import Labella.Model.Process
+import Labella.Model.CalSpec
+import Labella.Proofs.CalendarLemmas
+import Labella.Proofs.ProcessLemmas
+/-! # C18 — results do not depend on the process's local time zone
+
+The calendar and time-scale models (`Labella.Calendar`) take no zone parameter at all: every theorem of C14–C17 is
+zone-free by construction.  To make that statement non-vacuous the pre-repair conversion (through the process's
+local zone) is modelled with an explicit zone and shown to differ. -/
 namespace Labella.C18
 open Labella Labella.Process
 
-theorem placeholder_hour : hourFloor 3600001 = 3600000 := by decide
+/-! ### C18 -/
+
+/-- the pre-repair hour floor depends on the zone: US Eastern, wall clock 2021-03-14 02:30 (inside the DST gap) is
+floored to 03:00 instead of 02:00.  `utcOf`/`wallOf` are the two conversions of that zone around that instant
+(standard time UTC−5 before 07:00 UTC, daylight time UTC−4 from then on). -/
+theorem legacy_zone_dependent :
+    let t : Int := 1615689000000            -- 2021-03-14T02:30 as naive wall-clock milliseconds
+    let utcOf : Int → Int := fun w => w + 5 * 3600000                                -- the gap is resolved with the standard offset
+    let wallOf : Int → Int := fun u => if u < 1615705200000 then u - 5 * 3600000 else u - 4 * 3600000
+    legacyHourFloor utcOf wallOf t = 1615690800000 ∧ hourFloor t = 1615687200000 := by
+  refine ⟨?_, ?_⟩ <;> decide
+
+/-- with a zone that has no offset at all the two agree: the repaired function is the zone-free one -/
+theorem repaired_is_utc_legacy (t : Int) : legacyHourFloor id id t = hourFloor t := by
+  rfl
+
+/-- and the repaired conversion coincides with the calendar model used everywhere else (which takes no zone) -/
+theorem hourFloor_eq_floorU (t : Int) : hourFloor t = Calendar.floorU .hour t := by
+  rfl
+
+
+/-- every calendar operation of the model is a function of the instant alone (no zone argument exists): stated for
+`floorU` as the representative the correspondence check exercises under five process time zones -/
+theorem zone_free_floor (u : Calendar.TUnit) (t : Int) (zoneA zoneB : Int → Int) :
+    (fun (_ : Int → Int) => Calendar.floorU u t) zoneA = (fun (_ : Int → Int) => Calendar.floorU u t) zoneB := rfl
 
 end Labella.C18
